@@ -337,6 +337,8 @@ pub enum TaskKind {
     Long(u32),
     /// round r of a long series of rendezvous: blocks until `size` tasks of round r are inside
     Round(u32),
+    /// counts as executed, then panics
+    Panicking,
 }
 
 #[derive(Serialize, Deserialize, Clone, Debug, PartialEq)]
@@ -344,6 +346,10 @@ pub struct PoolSc {
     pub size: usize,
     pub submitters: usize,
     pub tasks: Vec<TaskKind>,
+    /// the owner drops the pool as soon as the last task has been handed over (submit and forget):
+    /// everything handed over before still has to run
+    #[serde(default)]
+    pub drop_after_submit: bool,
 }
 
 // ---------------------------------------------------------------------------------------- scenario
